@@ -1,6 +1,7 @@
 import Driver.Common
 import GIV.Model.Build
 import GIV.Model.ReadImports
+import GIV.Model.Scan
 open GIV Driver
 
 /-- `unicode.IsLetter(r) || unicode.IsDigit(r)` for r ≥ 0x80 — exact on U+0080–U+00FF,
@@ -26,6 +27,30 @@ def showOutcome : ReadImports.Outcome → String
   | .stuck => "stuck"
   | .ok imps buf err =>
     "I=" ++ (if imps.isEmpty then "_" else ",".intercalate (imps.map toHex)) ++ " B=" ++ toHex buf ++ " E=" ++ showErr err
+
+/-- `name:data` pairs joined by `;` (`_` = no file), all hex. -/
+def parseFiles (s : String) : Option (List Scan.File) :=
+  if s == "_" then some [] else
+  (s.splitOn ";").mapM fun item =>
+    match item.splitOn ":" with
+    | [n, d] => do let n ← fromHex n; let d ← fromHex d; pure (n, d)
+    | _ => none
+
+/-- `name:r:data` triples joined by `;` (`_` = empty directory); `r` = 1 for a regular file. -/
+def parseEntries (s : String) : Option (List Scan.Entry) :=
+  if s == "_" then some [] else
+  (s.splitOn ";").mapM fun item =>
+    match item.splitOn ":" with
+    | [n, r, d] => do let n ← fromHex n; let d ← fromHex d; pure ⟨n, r == "1", d⟩
+    | _ => none
+
+def showList (l : List Bytes) : String := if l.isEmpty then "_" else ",".intercalate (l.map toHex)
+
+def showScan : Except Scan.ScanErr (List Bytes × List Bytes) → String
+  | .ok (i, t) => "ok I=" ++ showList i ++ " T=" ++ showList t
+  | .error .noGo => "err nogo"
+  | .error (.read n e) => "err read " ++ toHex n ++ " " ++ showErr (some e)
+  | .error (.panic n) => "err panic " ++ toHex n
 
 def step (line : String) : String :=
   match line.splitOn " " with
@@ -58,6 +83,18 @@ def step (line : String) : String :=
   | ["read", d, r] =>
     match fromHex d with
     | some d => showOutcome (ReadImports.readImports d (r == "1"))
+    | none => "bad-op"
+  | ["scanfiles", t, ex, fs] =>
+    match parseTags t, parseFiles fs with
+    | some t, some fs => showScan (Scan.scanFiles driverU (tagsOf t) (ex == "1") fs)
+    | _, _ => "bad-op"
+  | ["scandir", t, d, es] =>
+    match parseTags t, fromHex d, parseEntries es with
+    | some t, some d, some es => showScan (Scan.scanDir driverU (tagsOf t) d es)
+    | _, _, _ => "bad-op"
+  | ["unquote", s] =>
+    match fromHex s with
+    | some s => (match Scan.unquote s with | none => "none" | some q => "some " ++ toHex q)
     | none => "bad-op"
   | _ => "bad-op"
 
